@@ -154,9 +154,13 @@ def safe_eval(eval_case, case):
     except CaseTimeout:
         return {'fails': [], 'nontrivial': False, 'labels': ['case-timeout'], 'evals': 0,
                 'timeout': True}
-    except Exception as exc:  # noqa
+    except (Exception, KeyboardInterrupt) as exc:  # noqa
+        # (a KeyboardInterrupt injected by a check must not take the pool
+        # worker down: the parent would wait for it for ever)
         tb = sys.exc_info()[2]
         frame = _panqec_frame(tb)
+        if isinstance(exc, KeyboardInterrupt):
+            frame = None
         text = ''.join(traceback.format_exception(type(exc), exc, tb))[-3000:]
         if frame is None:
             return {'harness_error': text, 'fails': [], 'nontrivial': False,
